@@ -154,6 +154,7 @@ let fields_of = function M.VObj (_, fs) -> fs | _ -> failwith "expected an objec
 
 let run_line (line : string) : string =
   match String.split_on_char '\t' line with
+  | [id; "DC"; t; h] -> id ^ "\tok\t" ^ hex_of_n (M.gen_decode_cost (n_of_int (int_of_string t)) (bytes_of_hex h))
   | id :: opname :: args ->
     let o = match opname, args with
       | "WP", [p; v] -> M.OWritePrim (prim_of_string p, parse_value v)
